@@ -81,6 +81,25 @@ func (m *Machine) fmtOne(caller *frame, spec string, verb byte, x value) []value
 	if !ok || i.t == nil {
 		return m.constBytes(m.fmtArgSpec(caller, spec, verb, x))
 	}
+	if m.fmtOpaque {
+		// stub (vsymFmtOpaque): message text is not the subject; a symbolic operand renders as "?",
+		// and so does a strconv error (its text quotes the offending, possibly symbolic, input)
+		if pt, ok := i.t.(*types.Pointer); ok {
+			if n, ok := pt.Elem().(*types.Named); ok && n.Obj().Pkg() != nil && n.Obj().Pkg().Path() == "strconv" {
+				return m.constBytes("?")
+			}
+		}
+		switch v := i.v.(type) {
+		case *Term:
+			if !v.IsConst() {
+				return m.constBytes("?")
+			}
+		case *symstr:
+			if _, ok := concreteString(v); !ok {
+				return m.constBytes("?")
+			}
+		}
+	}
 	switch v := i.v.(type) {
 	case *Term:
 		if v.IsConst() {
